@@ -17,6 +17,7 @@ CONSTANTS
   MaxEv = 0
   TickEnds = FALSE
   UseHint = FALSE
+  Remember = FALSE
 INVARIANT TypeOK
 INVARIANT OwnEntry
 INVARIANT SteadyForgets
